@@ -31,7 +31,12 @@ res() { echo "$1" | tee -a "$D/verdict.txt"; }
 ( cd "$D/mut" && go test -vet=off -count=1 -run TestSeedDemo $PKGS ) >"$D/demo-mut.log" 2>&1 && res "demo-with-change: PASSES (not a demonstration)" || res "demo-with-change: fails (as required)"
 # run the checks against the current /repo working tree + the patch (not the agent's base, which may be older)
 rsync -a --exclude .git /repo/ "$D/cur/"
-( cd "$D/cur" && patch -p1 -s < "$PATCH" ) || res "patch-on-current-tree: DOES NOT APPLY"
+if [ -f "$V/seeded/$NAME/patch-on-current-tree.diff" ]; then
+  # /repo has moved on since the agent's base (later fix: commits): a hand-rebased copy of the same change
+  ( cd "$D/cur" && patch -p1 -s < "$V/seeded/$NAME/patch-on-current-tree.diff" ) && res "patch-on-current-tree: rebased copy applied" || res "patch-on-current-tree: DOES NOT APPLY"
+else
+  ( cd "$D/cur" && patch -p1 -s < "$PATCH" ) || res "patch-on-current-tree: DOES NOT APPLY"
+fi
 for c in $ID $OTHERS; do
   ( cd "$V" && VERIF_REPO="$D/cur" VERIF_EVIDENCE_DIR="$D/ev" VERIF_REPLAY_SAVE_DIR="$D/rp" ./check $c >"$D/check-$c.out" 2>"$D/check-$c.err" ); rc=$?
   case $rc in
